@@ -117,6 +117,10 @@ WalkR(st, c, id, path, acc, fuel, k) ==
     ELSE IF act = "SkipDir" THEN
         (IF isdir THEN [seen |-> seen1, stop |-> ""] ELSE [seen |-> seen1, stop |-> "skipdir"])
     ELSE IF ~isdir \/ fuel = 0 THEN [seen |-> seen1, stop |-> ""]
+    \* a directory that cannot be listed (search permission on the way to it, read permission on it) is reported to the
+    \* callback a second time, with the error; the callback of the universe hands that error back, which ends the walk
+    ELSE IF Res(st, [abs |-> TRUE, parts |-> path], TRUE).err # "ok" \/ ~May(st, id, 4)
+         THEN [seen |-> Append(seen1, PathStrK(TRUE, path, k)), stop |-> "eacces"]
     ELSE
     LET RECURSIVE Kids(_, _)
         Kids(ns, a) ==
@@ -133,7 +137,8 @@ WalkDirK(st, c, k) ==
         \* the callback is told about the failing Lstat of the root and returns that error
         Ret([R0 EXCEPT !.err = IF r.err # "ok" THEN r.err ELSE "ENOENT", !.names = <<PathStrK(c.p.abs, c.p.parts, k)>>], st)
     ELSE LET w == WalkR(st, c, r.id, c.p.parts, [seen |-> <<>>, stop |-> ""], 8, k) IN
-         Ret([R0 EXCEPT !.err = IF w.stop = "err" THEN "ECALLBACK" ELSE "ok", !.names = w.seen, !.n = Len(w.seen)], st)
+         Ret([R0 EXCEPT !.err = IF w.stop = "err" THEN "ECALLBACK" ELSE IF w.stop = "eacces" THEN "EACCES" ELSE "ok",
+                        !.names = w.seen, !.n = IF w.stop = "eacces" THEN 0 ELSE Len(w.seen)], st)
 
 WalkDir(st, c) == WalkDirK(st, c, 0)
 
